@@ -44,6 +44,9 @@ pub struct Case {
     pub rrdp_msg: String,
     pub point_msg: String,
     pub repo_uri: String,
+    /// which variants the non-string fields of the metrics take (bit
+    /// field, see `metrics_for`); 0 = the plain values
+    pub shape: u32,
 }
 
 impl Case {
@@ -52,6 +55,7 @@ impl Case {
             tal: "ta".into(), tal2: "other".into(), rsync_msg: "rsync failed".into(),
             rrdp_msg: "rrdp failed".into(), point_msg: "manifest stale".into(),
             repo_uri: "rsync://example.net/repo/".into(),
+            shape: 0,
         }
     }
     fn set(&mut self, pos: usize, s: &str) {
@@ -72,17 +76,46 @@ fn metrics_for(c: &Case) -> Metrics {
     m.tals.push(TalMetrics::new(TalInfo::from_name(c.tal2.clone()).into_arc()));
     m.repositories.push(RepositoryMetrics::new(c.repo_uri.clone()));
     m.repositories.push(RepositoryMetrics::new("https://rrdp.example.net/notify.xml".into()));
+    // Variants of the structured fields, one bit each: every Result and
+    // Option in both forms, every status kind.
+    let bit = |n: u32| c.shape & (1 << n) != 0;
+    let clock_went_back = || std::time::SystemTime::now().duration_since(
+        std::time::SystemTime::now() + Duration::from_secs(3600)
+    ).map(|_| Duration::from_secs(0));
     m.rsync.push(RsyncModuleMetrics {
         module: rpki::uri::Rsync::from_str("rsync://example.net/repo/").unwrap(),
-        status: Err(std::io::Error::other(c.rsync_msg.clone())),
-        duration: Ok(Duration::from_secs(1)),
+        status: if bit(0) {
+            Ok(std::os::unix::process::ExitStatusExt::from_raw(if bit(1) { 0 } else { 256 }))
+        } else { Err(std::io::Error::other(c.rsync_msg.clone())) },
+        duration: if bit(2) { clock_went_back() } else { Ok(Duration::from_secs(1)) },
         log_book: Some(book(&c.rsync_msg)),
     });
-    let mut rrdp = RrdpRepositoryMetrics::new(
-        rpki::uri::Https::from_str("https://rrdp.example.net/notify.xml").unwrap()
-    );
-    rrdp.log_book = Some(book(&c.rrdp_msg));
-    m.rrdp.push(rrdp);
+    m.rsync.push(RsyncModuleMetrics {
+        module: rpki::uri::Rsync::from_str("rsync://example.org/other/").unwrap(),
+        status: Ok(std::os::unix::process::ExitStatusExt::from_raw(0)),
+        duration: Ok(Duration::from_secs(2)),
+        log_book: None,
+    });
+    // three RRDP repositories; the variants go to the middle one, so that
+    // whatever it leaves unfinished is followed by more output
+    for (i, uri) in ["https://rrdp.example.net/notify.xml", "https://rrdp.example.org/n.xml", "https://rrdp.example.com/n.xml"].iter().enumerate() {
+        let mut rrdp = RrdpRepositoryMetrics::new(rpki::uri::Https::from_str(uri).unwrap());
+        if i == 0 { rrdp.log_book = Some(book(&c.rrdp_msg)); }
+        if i == 1 {
+            use routinator::collector::{HttpStatus, SnapshotReason};
+            rrdp.notify_status = match (bit(3), bit(4)) {
+                (false, false) => HttpStatus::Error,
+                (false, true) => HttpStatus::Rejected,
+                (true, false) => HttpStatus::Response(hyper::StatusCode::OK),
+                (true, true) => HttpStatus::Response(hyper::StatusCode::NOT_MODIFIED),
+            };
+            if bit(5) { rrdp.session = Some(uuid::Uuid::from_u128(0x0123456789abcdef0123456789abcdef)); rrdp.serial = Some(u64::MAX); }
+            if bit(6) { rrdp.snapshot_reason = Some(if bit(7) { SnapshotReason::CorruptArchive } else { SnapshotReason::NewRepository }); }
+            if bit(7) { rrdp.payload_status = Some(if bit(6) { HttpStatus::Response(hyper::StatusCode::INTERNAL_SERVER_ERROR) } else { HttpStatus::Error }); }
+            if bit(8) { rrdp.duration = clock_went_back(); }
+        }
+        m.rrdp.push(rrdp);
+    }
     m.pub_point_logs.push((
         rpki::uri::Rsync::from_str("rsync://example.net/repo/ca/").unwrap(),
         book(&c.point_msg)
@@ -189,6 +222,12 @@ pub fn cases(thorough: bool) -> Vec<(String, Case)> {
         c.set(4, s);
         res.push((format!("single:{}:{i}", POS[4]), c));
     }
+    // every combination of the variants of the structured fields
+    for shape in 1..(1u32 << 9) {
+        let mut c = Case::base();
+        c.shape = shape;
+        res.push((format!("shape:{shape:09b}"), c));
+    }
     // pairs of positions with the hostile core alphabet
     let core: Vec<&str> = if thorough {
         vec!["\"", "\\", "\n", "\0", "\u{1f}", "a\"b\\c\nd", "\t", "\r", "}", "\u{7f}"]
@@ -225,6 +264,11 @@ pub fn run(ctx: &Ctx) -> Report {
         plus quote/backslash/newline combinations in TAL name and each of \
         the three log books, every legal URI character in the repository \
         URI; then all pairs of positions over a hostile core alphabet; \
+        then all 511 combinations of the variants of the structured \
+        fields (rsync status error / exit 0 / exit 1, durations Ok / Err \
+        as after a clock step, RRDP notify status error / rejected / 200 / \
+        304, session and serial absent / present, snapshot reason, payload \
+        status), placed in the middle of three RRDP repositories; \
         /api/v1/status must parse as strict JSON and carry the strings, \
         /metrics must parse with a Prometheus text-format parser and carry \
         the names as label values; non-trivial = cases with a deviation".into();
